@@ -70,6 +70,16 @@ def run(prog, rep):
 
     check_integer_conversion(prog, rep)
 
+    # ---------------------------------------------------------------- R4.7 / R4.8 wire value -> range-checked conversion (tables shared with C07 / C08)
+    rep.rule('R4.7', 'MsgPack readers, integer and floating targets: for every first byte of the family the payload is read with the width and '
+                     'signedness the format assigns and that value (not a reinterpreted one) is what reaches the range-checked conversion; both readers', floor=2 * 300)
+    rep.rule('R4.7x', 'MsgPack readers, integer and floating targets: the cursor ends behind the value', floor=2 * 300)
+    from rules import json_load, msgpack_tables
+    msgpack_tables.check_accept_tables(prog, rep, 'R4.7', 'R4.7x', families=('int', 'float'), declare=False, value_types=False)
+    rep.rule('R4.8', 'JSON LoadValue decision table over the kinds of JSON number x target kind: integers go through the range-checked conversion of the '
+                     'getter that is valid for their class (GetInt64 / GetUint64), every number spelling reaches a floating target through GetDouble', floor=10)
+    json_load.check(prog, rep, 'R4.8')
+
     # ---------------------------------------------------------------- R4.1
     loaders = ('SerializeValue', 'LoadValue', 'ReadInteger', 'ReadValue', 'GetValue', 'LoadAttrValue')
     for f in sorted(prog.funcs.values(), key=lambda x: x.id):
